@@ -15,6 +15,7 @@ package main
 import (
 	"encoding/json"
 	"flag"
+	"sync"
 	"fmt"
 	"math/rand"
 	"strings"
@@ -41,6 +42,7 @@ func clustersim(args []string) error {
 	mix := fs.String("mix", "kill,term,transfer", "nemesis actions to draw from")
 	snapCount := fs.Int("snapcount", 40, "")
 	think := fs.Int("think", 110, "mean client think time in ms")
+	reads := fs.Bool("reads", false, "also issue GET / HGET / LLEN to the replica that reports itself leader and check them as linearizable operations")
 	nrep := fs.Int("n", 3, "replicas (the batch stage uses a 1-replica group: entries proposed together commit together)")
 	fs.Parse(args)
 	if *epochOps > 200 {
@@ -59,6 +61,7 @@ func clustersim(args []string) error {
 	w := s.w
 	w.think = *think
 	w.burst = 40
+	w.reads = *reads
 	counts := map[string]int{}
 	env := func(why string) error {
 		w.stopNowSafe()
@@ -118,6 +121,85 @@ func clustersim(args []string) error {
 		if _, res, err := s.restart(f); err != nil || res != "ready" {
 			return env("follower did not restart")
 		}
+		if !cl.settle(90*time.Second) || !cl.readAll(h) {
+			return env("no settle")
+		}
+		h.add(trace.M{"ev": "settle"})
+		validEpochs = 1
+	}
+
+	if *kind == "staleread" {
+		// isolate stage of c04-leader-local-read-after-deposition: the leader is cut off, the other two
+		// elect a new leader and commit an INCR; until the old leader notices (check-quorum) it still
+		// reports itself leader and serves GET from its local store
+		h.add(trace.M{"ev": "reset", "weak": false, "st": cur})
+		ld := s.leader()
+		if ld == 0 {
+			return env("no leader")
+		}
+		do := func(node int, op zop, to time.Duration) (int64, bool) {
+			c, err := dialResp(cl.redisPort(node), 2*time.Second)
+			if err != nil {
+				return 0, false
+			}
+			defer c.close()
+			id := h.newID()
+			h.inv(id, op)
+			v, err := c.do(to, op.args()...)
+			if n, ok := replyInt(v); err == nil && ok {
+				h.ok(id, n)
+				return n, true
+			}
+			if isRead(op.T) {
+				h.refuse(id, err)
+			} else {
+				h.fail(id, err)
+			}
+			return 0, false
+		}
+		if _, ok := do(ld, zop{"incr", "s1", 0}, 3*time.Second); !ok {
+			return env("warm-up write failed")
+		}
+		cl.kids[ld].send("pause")
+		if ln := cl.kids[ld].waitLine(3*time.Second, "PAUSED"); ln != "PAUSED" {
+			return env("pause failed")
+		}
+		others := s.survivors(ld)
+		var stale, committed int32
+		stopR := make(chan struct{})
+		var wgR sync.WaitGroup
+		wgR.Add(1)
+		go func() { // reads on the cut-off leader until it refuses (it has stepped down)
+			defer wgR.Done()
+			for {
+				select {
+				case <-stopR:
+					return
+				default:
+				}
+				if _, ok := do(ld, zop{"get", "s1", 0}, 1500*time.Millisecond); ok {
+					if atomic.LoadInt32(&committed) > 0 {
+						atomic.AddInt32(&stale, 1) // answered after the majority committed (TLC decides whether it is stale)
+					}
+				} else if atomic.LoadInt32(&committed) > 0 {
+					return
+				}
+				time.Sleep(15 * time.Millisecond)
+			}
+		}()
+		for t := time.Now().Add(9 * time.Second); time.Now().Before(t) && atomic.LoadInt32(&committed) < 3; {
+			if _, ok := do(others[int(atomic.LoadInt32(&committed))%2], zop{"incr", "s1", 0}, 500*time.Millisecond); ok {
+				atomic.AddInt32(&committed, 1)
+			}
+			time.Sleep(20 * time.Millisecond)
+		}
+		time.Sleep(300 * time.Millisecond)
+		close(stopR)
+		wgR.Wait()
+		counts["incr_committed_by_majority"] = int(committed)
+		counts["get_answered_by_cut_off_leader_after_commit"] = int(stale)
+		cl.kids[ld].send("resume")
+		cl.kids[ld].waitLine(3*time.Second, "RESUMED")
 		if !cl.settle(90*time.Second) || !cl.readAll(h) {
 			return env("no settle")
 		}
@@ -406,6 +488,26 @@ func clustersim(args []string) error {
 					epochOK = false
 				}
 				w.setTargets(all)
+			case "partition":
+				// cut one replica (mostly the leader) off from its peers for longer than an election
+				// time-out, then reconnect it: the minority side must not acknowledge anything, and what
+				// a deposed leader answers must not show up as a non-linearizable answer
+				if rng.Intn(3) != 0 {
+					if ld := s.leader(); ld != 0 {
+						victim = ld
+					}
+				}
+				cl.kids[victim].send("pause")
+				if ln := cl.kids[victim].waitLine(3*time.Second, "PAUSED"); ln != "PAUSED" {
+					counts["partition_refused"]++
+					continue
+				}
+				atomic.StoreInt32(&w.isolated, int32(victim))
+				time.Sleep(time.Duration(1800+rng.Intn(2200)) * time.Millisecond)
+				cl.kids[victim].send("resume")
+				cl.kids[victim].waitLine(3*time.Second, "RESUMED")
+				atomic.StoreInt32(&w.isolated, 0)
+				counts["partition"]++
 			case "transfer":
 				ld := s.leader()
 				if ld == 0 {
